@@ -4,6 +4,7 @@
 
 mod ast;
 mod drive;
+mod faultdb;
 mod gen;
 mod oracle;
 mod props;
@@ -112,9 +113,14 @@ fn run_check(id: &str, tier: &str) -> i32 {
         "C03" => props::c03::run_c03(&rep),
         "C04" => props::c04::run_c04(&rep),
         "C09" => props::c09::run_c09(&rep),
+        "C10" => props::c10::run_c10(&rep),
+        "C11" => props::c11::run_c11(&rep),
+        "C12" => props::c12::run_c12(&rep),
         "C14" => props::c14::run(&rep, "C14"),
         "C15" => props::c14::run(&rep, "C15"),
         "C16" => props::c16::run_c16(&rep),
+        "C17" => props::c17::run_c17(&rep),
+        "C18" => props::c18::run_c18(&rep),
         "C28" => props::c28::run_c28(&rep),
         _ => {
             eprintln!("no check for {}", id);
